@@ -9,8 +9,10 @@ states, that the regenerated methods instantiated at the value-level world are t
 coq/Model/C08_Archive.v and, instantiated at the heap-level world, the hand model coq/Model/C08_Heap.v;
 coq/Props/C08_gen.v restates the C08 theorems on the regenerated definitions.  A semantic change of the source
 therefore breaks a proof obligation; a construct outside the grammar below makes the translator REFUSE that
-method (class Refuse): its regenerated definition is then the hand-written reference transcription
-(coq/Model/C08_GenRef.v, a placeholder reported as such) and the method is tied by the correspondence only.
+method (class Refuse): its regenerated definition is then the committed reference transcription of that method
+(harness/c08_gen_ref.v.in: the translator's output for the source at the time the tie was built; a placeholder
+reported as such, so that the committed equivalence file always builds and the other methods keep the regenerated
+tie) and the method is tied by the correspondence only.
 
 Grammar (everything else is refused)
   classes      class HallOfFame(object) / class ParetoFront(HallOfFame): docstring and plain `def`s only (no
@@ -960,7 +962,7 @@ def translate_function(fn, key, params, maxsize, rettype, available):
 
 HEADER = """(* GENERATED by harness/c08_py2coq.py from %s -- do not edit, never committed *)
 From Coq Require Import List ZArith Bool.
-From DV Require Import Base.PyTuple Base.PyList Model.C08_Archive Model.C08_GenRt Model.C08_GenRef.
+From DV Require Import Base.PyTuple Base.PyList Model.C08_Archive Model.C08_GenRt.
 Import ListNotations.
 Local Open Scope Z_scope.
 Local Open Scope c08_scope.
@@ -975,11 +977,23 @@ TRAILER = """End Gen.
 """
 
 
+REF_FILE = os.path.join(os.path.dirname(os.path.abspath(__file__)), "c08_gen_ref.v.in")
+
+
+def reference_texts():
+    """the committed reference transcription of every method (the translator's output for the source at the time the
+    tie was built), keyed by the method key: what a refused method is defined as"""
+    out = {}
+    for part in re.split(r"(?m)^\(\* == ", open(REF_FILE).read())[1:]:
+        key, body = part.split(" == *)\n", 1)
+        out[key.strip()] = body.strip()
+    return out
+
+
 def placeholder(key, params, maxsize, rettype, model, why):
-    args = "".join([" maxsize"] if maxsize else []) + "".join(" " + cn(p) for p, _ in params)
-    return "(* REFUSED %s: %s -- placeholder: the hand-written reference transcription, tied by the correspondence only *)\n" \
-           "Definition gen_%s%s : M %s :=\n  %s%s." % (key, str(why).replace("*)", "* )").replace("(*", "( *").replace('"', "'"), key,
-                                                      sig_text(params, maxsize), coqtype(rettype), model, args)
+    why = str(why).replace("*)", "* )").replace("(*", "( *").replace('"', "'")
+    return "(* REFUSED %s: %s -- placeholder: the committed reference transcription (harness/c08_gen_ref.v.in), this method " \
+           "is tied by the correspondence only *)\n%s" % (key, why, reference_texts()[key])
 
 
 def translate_source(text, origin="deap/tools/support.py"):
